@@ -225,6 +225,46 @@ type MapSI map[string]int
 type MapKV map[KeyS]Small
 
 // ---------------------------------------------------------------------------
+// FN: nested containers and unusual shapes (only shapes plenc supports:
+// a *map field and a map of maps crash Marshal on valid values - C01/C08's
+// matter - and are left out)
+
+type IDs []int64
+type Tags map[string]string
+
+type OnlyMap struct {
+	M map[string]int `plenc:"1"`
+}
+
+type Nest struct {
+	II   [][]int                `plenc:"1"`
+	FF   [][]float32            `plenc:"2"`
+	PSI  []*[]int               `plenc:"3"`
+	MSI  map[string][]int       `plenc:"4"`
+	PS   *[]string              `plenc:"6"`
+	Ids  IDs                    `plenc:"8"`
+	Tg   Tags                   `plenc:"9"`
+	NIs  []null.Int             `plenc:"10"`
+	MNS  map[string]null.String `plenc:"11"`
+	OM   OnlyMap                `plenc:"12"`
+	POM  *OnlyMap               `plenc:"13"`
+	PrII [][]int                `plenc:"14,proto"`
+	BB   [][]byte               `plenc:"17"`
+	PIn  **Inner                `plenc:"18"`
+}
+
+// NestD holds shapes that plenc only supports in its default slice form: a map
+// whose values are slices of length-delimited elements does not survive a round
+// trip with ProtoCompatibleArrays (the repeated value field has no framing
+// inside a map entry) - C12's matter. Never used with that configuration.
+type NestD struct {
+	MIS map[int][]string    `plenc:"5"`
+	MSS map[string][]string `plenc:"16"`
+	MSI map[string][]int    `plenc:"4"`
+	MIn map[string][]Inner  `plenc:"7"`
+}
+
+// ---------------------------------------------------------------------------
 // JSON-any
 
 type JArr struct {
@@ -300,12 +340,13 @@ type BadNoTag struct {
 // registry of named types
 
 type TypeInfo struct {
-	Name   string
-	T      reflect.Type
-	Family string
-	Twin   string // name of the twin without interning, if any
-	Bad    bool   // construction must fail
-	Top    bool   // usable as a top-level Marshal/Unmarshal type
+	Name    string
+	T       reflect.Type
+	Family  string
+	Twin    string // name of the twin without interning, if any
+	Bad     bool   // construction must fail
+	Top     bool   // usable as a top-level Marshal/Unmarshal type
+	NoProto bool   // not usable with ProtoCompatibleArrays (plenc itself does not support the shape there)
 }
 
 var (
@@ -325,6 +366,7 @@ func reg(name, family string, v interface{}, opts ...func(*TypeInfo)) {
 func twin(n string) func(*TypeInfo) { return func(t *TypeInfo) { t.Twin = n } }
 func bad(t *TypeInfo)               { t.Bad = true }
 func notTop(t *TypeInfo)            { t.Top = false }
+func noProto(t *TypeInfo)           { t.NoProto = true }
 
 func init() {
 	reg("Wide", "F1", Wide{})
@@ -369,6 +411,16 @@ func init() {
 	reg("MapSI", "F6", MapSI{})
 	reg("MapKV", "F6", MapKV{})
 	reg("KeyS", "F6", KeyS{})
+
+	reg("Nest", "FN", Nest{})
+	reg("NestD", "FN", NestD{}, noProto)
+	reg("OnlyMap", "FN", OnlyMap{})
+	reg("[][]int", "FN", [][]int{})
+	reg("map[string][]int", "FN", map[string][]int{})
+	reg("IDs", "FN", IDs{})
+	reg("Tags", "FN", Tags{})
+	reg("[]null.Int", "FN", []null.Int{})
+	reg("*[]string", "FN", (*[]string)(nil))
 
 	reg("JDoc", "FJ", JDoc{})
 	reg("JArr", "FJ", JArr{})
@@ -422,11 +474,44 @@ func TopOK(ti *TypeInfo, cfg InstCfg) bool {
 	if !ti.Top || ti.Bad {
 		return false
 	}
+	return ShapeOK(ti, cfg)
+}
+
+// ShapeOK is TopOK without the registry's Top flag: can plenc handle a value of
+// this type on its own under cfg at all?
+func ShapeOK(ti *TypeInfo, cfg InstCfg) bool {
+	if ti.Bad {
+		return false
+	}
+	if cfg.ProtoArrays && ti.NoProto {
+		return false
+	}
 	t := ti.T
-	if cfg.ProtoArrays && t.Kind() == reflect.Slice && t.Elem().Kind() != reflect.Uint8 && t.Elem().Kind() != reflect.Interface && !isScalarKind(t.Elem()) {
+	for t.Kind() == reflect.Ptr {
+		t = t.Elem()
+	}
+	if cfg.ProtoArrays && t.Kind() == reflect.Slice && t.Elem().Kind() != reflect.Uint8 && t.Elem().Kind() != reflect.Interface && !isPackedElem(t.Elem()) {
 		return false
 	}
 	return true
+}
+
+// isPackedElem: slices of these element types are packed (one length-delimited
+// run of varints / fixed-width values) in every configuration.
+func isPackedElem(t reflect.Type) bool {
+	if isScalarKind(t) {
+		return true
+	}
+	for t.Kind() == reflect.Ptr {
+		t = t.Elem()
+	}
+	if isNullType(t) {
+		switch t.Name() {
+		case "Int", "Bool", "Float":
+			return true
+		}
+	}
+	return false
 }
 
 // IsRecursive reports whether t can reach itself. plenc's Descriptor() of such
